@@ -129,6 +129,31 @@ Theorem C17_lane_push_retains_before_publish_partial :
 Proof. reflexivity. Qed.
 Print Assumptions C17_lane_push_retains_before_publish_partial.
 
+(* PARTIAL (lane / object reference sites): the presence and position of the refcount operations the +2 protocol
+   and the target-queue references rely on, read from the source:
+   - the number of refcount releases / retains reachable from _dispatch_queue_invoke_finish (the release of the +2 on its
+     non-re-enqueueing exit, those of the barrier-waiter hand-off and of the nested wakeups) is pinned: dropping or adding one
+     breaks this statement;
+   - _dispatch_lane_suspend ends by taking its +2 (relaxed add) after the state transition;
+   - _dispatch_dispose releases the target queue (its only refcount site: release, after the finalizer was submitted);
+   - dispatch_set_target_queue (objects other than queues): the new target is retained BEFORE the exchange that publishes
+     it, the old one released after. *)
+Definition lastn (n : nat) (l : list site) : list site := skipn (length l - n) l.
+Definition akind_id (k : akind) : nat :=
+  match k with KLoad => 0 | KStore => 1 | KXchg => 2 | KCas => 3 | KCasWeak => 4 | KAdd => 5 | KSub => 6 | KAnd => 7 | KOr => 8
+             | KXor => 9 | KFence => 10 end%nat.
+Definition site_is (k : akind) (f : nat) (o : morder) (x : site) : bool :=
+  Nat.eqb (akind_id (s_kind x)) (akind_id k) && Nat.eqb (s_field x) f && (mo_code (s_order x) =? mo_code o).
+Theorem C17_lane_refcount_sites_partial :
+  (length (filter (site_is KSub F_os_obj_ref_cnt Release) rc_invoke_finish_sites),
+   length (filter (site_is KAdd F_os_obj_ref_cnt Relaxed) rc_invoke_finish_sites)) = (6, 0)%nat /\
+  lastn 1 rc_lane_suspend_sites = [st KAdd F_os_obj_ref_cnt Relaxed] /\
+  rc_dispatch_dispose_sites = [st KSub F_os_obj_ref_cnt Release] /\
+  rc_set_target_queue_sites =
+    [st KAdd F_os_obj_ref_cnt Relaxed; st KXchg F_do_targetq Release; st KSub F_os_obj_ref_cnt Release].
+Proof. repeat split. Qed.
+Print Assumptions C17_lane_refcount_sites_partial.
+
 (* non-vacuity: three threads; thread 1 sets context 77 + finalizer + target queue 5, enters, registers THREE
    notifications, then drops the application's only reference while the group is non-empty (xref = -1, object alive);
    thread 2 registers a fourth notification through an internal reference it took; thread 3 (a worker) performs the
